@@ -169,6 +169,10 @@ unsafe impl<'gc, T: Collect<'gc>> DynCollect<'gc> for T {
 #[macro_export]
 macro_rules! __dyn_collect {
     (<$($params:tt),+ $(,)*> $trait:ty $(where $($bounds:tt)+)?) => {
+        // The where clause is pasted as raw tokens in front of the generated impl body. A brace
+        // group in it would end the impl header early and become the body.
+        $($crate::__no_brace_groups!($($bounds)+);)?
+
         unsafe impl<'gc, $($params),*> $crate::Collect<'gc> for $trait
         where
             $($($bounds)+)*
@@ -205,6 +209,25 @@ macro_rules! __dyn_collect {
             impl<'gc> _MustBeUnsized for $trait {}
         };
     }
+}
+
+#[doc(hidden)]
+#[macro_export]
+macro_rules! __no_brace_groups {
+    () => {};
+    ({ $($inner:tt)* } $($rest:tt)*) => {
+        compile_error!("a `{ ... }` group is not allowed in the where clause of `dyn_collect!`");
+    };
+    ($a:tt $b:tt $c:tt $d:tt $($rest:tt)+) => {
+        $crate::__no_brace_groups!($a);
+        $crate::__no_brace_groups!($b);
+        $crate::__no_brace_groups!($c);
+        $crate::__no_brace_groups!($d);
+        $crate::__no_brace_groups!($($rest)+);
+    };
+    ($first:tt $($rest:tt)*) => {
+        $crate::__no_brace_groups!($($rest)*);
+    };
 }
 
 #[doc(inline)]
